@@ -167,3 +167,8 @@ def run(F, res, tier):
     nn = sum(1 for v in R["finish_sites"].values() if v["kind"] in ("NAME", "NAME_REF", "TYPE_NAME", "LABEL"))
     res.ob("A4", "name-nodes-one-token", "name-like nodes wrap at most one token and no child node, so a name-like result covers a whole token (decided by engine P, see C07/N1)",
            not bad and nn >= 18, where="crates/syntax/src/parser.rs", how="%d finish_node sites of name-like kinds, offending: %s" % (nn, bad))
+
+
+def thorough(F, res):
+    from lib import pcache as _pc
+    _pc.crosscheck(F, res)
